@@ -36,6 +36,12 @@ class AstToSqlAlchemyCoreVisitor(common._CommonVisitors, visitor.NodeVisitor):
 
     def visit_Compare(self, node: ast.Compare) -> BinaryExpression:
         """:meta private:"""
+        if isinstance(node.left, ast.Null) and isinstance(
+            node.comparator, (ast.Eq, ast.NotEq)
+        ):
+            # `null eq x` is the same test as `x eq null`, but SQLAlchemy only renders
+            # `IS [NOT] NULL` when NULL is the right operand (`NULL = x` is never true).
+            node = ast.Compare(node.comparator, node.right, node.left)
         left = self.visit(node.left)
         right = self.visit(node.right)
         op = self.visit(node.comparator)
